@@ -487,6 +487,15 @@ func (s *Service) processWriteShardRequest(buf []byte) error {
 	}
 
 	points := req.Points()
+	// A point that could not be decoded is returned as nil (and logged); it
+	// must not reach the store, which would dereference it.
+	decoded := points[:0]
+	for _, p := range points {
+		if p != nil {
+			decoded = append(decoded, p)
+		}
+	}
+	points = decoded
 	atomic.AddInt64(&s.stats.WriteShardPointsReq, int64(len(points)))
 	err := s.TSDBStore.WriteToShard(req.ShardID(), points)
 
